@@ -78,6 +78,18 @@ Theorem C02_tolerance : forall k x n d tn td st,
 Proof. exact tolerance_ok. Qed.
 Print Assumptions C02_tolerance.
 
+(* The property's literal tolerance for positions is HALF a wire step (1/1200000 degree).  The decoder reports the wire
+   code rounded to six decimals (pinned by tests/test_decode.py::test_that_lat_and_long_are_rounded_correctly), which can
+   add up to 5e-7: the literal clause is false of the code -- known finding "beyond-half-step".  Witness: lat = 0.00000084
+   is sent as code 1 (the nearest, C02_position_code_nearest) and reported as 0.000002, 1.16e-6 away.  What IS proved
+   (C02_tolerance) is the bound half a step + half a unit of the sixth decimal. *)
+Theorem C02_refuted_half_step :
+  exists n d y yd, 0 < d /\ normalise_kind KLL (SFrac n d) = SFrac y yd /\ within false 1 1200000 n d y yd = false /\
+                   within false 8 6000000 n d y yd = true.
+Proof. exists 84, 100000000, 2, 1000000. vm_compute. repeat split; reflexivity. Qed.
+Print Assumptions C02_refuted_half_step.
+
+
 Theorem C02_position_code_nearest : forall scale n d, 0 < d -> 2 * Z.abs (code_near scale n d * d - n * scale) <= d.
 Proof. exact position_code_nearest. Qed.
 Print Assumptions C02_position_code_nearest.
